@@ -284,6 +284,13 @@ def c18_agent(stream, res, impl):
                 dropped = [c[3:] for c in calls if c.startswith("rm:")]
                 if sorted(set(dropped)) != sorted(set(invalid)):
                     return "non-strict round un-trusted %s, the pool declared %s invalid" % (sorted(set(dropped)), sorted(set(invalid)))
+            if kv.get("update") == "ok" and kv.get("failat") == "-" and kv.get("peer", "").startswith("hosts:") and okv.get("result") == "ok" \
+                    and okv.get("peer", "none") != "none":
+                returned = [h for h in kv["peer"][len("hosts:"):].split(";") if h]
+                connected = [c[3:] for c in calls if c.startswith("co:")]
+                missing = [h for h in returned if h not in connected]
+                if missing:
+                    return "the pool returned hosts %s; the agent did not connect to %s" % (returned, missing)
     return None
 
 
@@ -768,6 +775,19 @@ _HOSTPORT = re.compile(r"^(\[[^\[\]]+\]|[^:\[\]]+):(\d+)$")
 
 def c19_advertised(stream, res, impl):
     """every host the pool stores/advertises carries its own id and an address that splits into host and port"""
+    if stream["component"] == "uri":
+        for op, out in zip(res, impl):
+            t = op.split()
+            if len(t) < 2 or t[1] != "norm" or not out.startswith("ok "):
+                continue
+            kv, okv = _kv(op), _kv(out)
+            if okv.get("id") != kv.get("id"):
+                return "a host authenticated as %s is advertised under the identity `%s` (override %s)" % (kv.get("id"), okv.get("id"), kv.get("raw"))
+            port = okv.get("port", "")
+            if okv.get("host", "~") in ("~", "") or not port.isdigit() or not (0 <= int(port) < 65536):
+                return "host %s is advertised at the undialable address %s:%s (override %s, source %s)" % (
+                    kv.get("id"), okv.get("host"), port, kv.get("raw"), kv.get("src"))
+        return None
     if stream["component"] != "pool":
         return None
     injected = set()
@@ -831,6 +851,15 @@ def c20_life(stream, res, impl):
             if loops == 1 and out == "blocked":
                 return "stop of a running agent did not return"
             if out != "blocked":
+                loops = 0
+        elif t[1] == "stop2":
+            if "blocked" in out:
+                return "one of two concurrent stops did not return: %s" % out
+            loops = 0
+        elif t[1] == "stopfail":
+            if out == "blocked":
+                return "Stop was pending when the loop ended on a failed keep-alive, and never returned"
+            if out != "no-keepalive":
                 loops = 0
         elif t[1] == "run":
             m = re.match(r"loops=(\d+)", out)
